@@ -140,6 +140,10 @@ func runC26(c *Ctx) {
 	n := c.runLockset("R26a", LockSpec{Pkg: pipesPkg, Type: "Named", Mutex: "mutex", Fields: []string{"pipes"}})
 	c.MinCount("R26a", "guarded accesses to Named.pipes", n, 14)
 
+	c.Rule("R26e", "lock balance: every function of lang/pipes releases the registry mutex on every path to an exit (or defers the unlock); a path that returns with the mutex held blocks every later named-pipe operation")
+	nb := c.runLockBalance("R26e", []string{pipesPkg}, nil)
+	c.MinCount("R26e", "functions that take the registry lock", nb, 7)
+
 	c.Rule("R26b", "check-then-act: every insert into the registry is justified by `entry == nil` for the same key, every delete / method call on the entry's pipe / hand-out of the pipe by `entry != nil`, established in the same critical section (no Unlock between the check and the act)")
 	c.Rule("R26c", "map-miss dereference: a method call on pipes[k].Pipe (nil interface when k is absent) is dominated by a non-nil check in the same critical section; in a `go` function without recover a violation kills the shell")
 	nActs := 0
